@@ -59,6 +59,16 @@ def describe(v):
     return ["A", v.name, str(v.unit), str(v.dtype), list(v.shape), np.asarray(v._array).tolist()]
 
 
+def strip_names(desc):
+    """the same description without names (one object stored under two keys can only carry one name)"""
+    def s(d):
+        if d[0] == "V":
+            return ["V", [s(c) for c in d[2]]]
+        return ["A"] + d[2:]
+
+    return [[k, s(d)] for k, d in desc]
+
+
 def describe_model(key, m):
     def one(name, arr, unit):
         arr = np.asarray(arr)
@@ -72,6 +82,7 @@ def describe_model(key, m):
 class Box:
     def __init__(self, obj):
         self.obj = obj
+        self.aliased = False  # some object is stored under two keys (names are then not comparable)
 
 
 def index_objects(name, n):
@@ -134,6 +145,11 @@ class Spec:
         ops.append(["del", "b"])
         ops.append(["pop", "c"])
         ops.append(["update", [["b", "Afit"], ["c", "A_plus1"]]])
+        # the same object reachable twice in one group
+        ops.append(["alias", "a", "c"])
+        ops.append(["alias", "c", "b"])
+        ops.append(["alias_component", "b", "c"])
+        ops.append(["alias_component", "a", "b"])
         self.ops = ops
         self.keys = params["keys"]
 
@@ -143,8 +159,15 @@ class Spec:
         return Box(osyris.Datagroup()), {}
 
     def canon(self, impl):
+        import osyris
+
         g = impl.obj
-        return [[k, describe(g._container[k])] for k in g._container]
+        ids, same = {}, []
+        for k in g._container:
+            v = g._container[k]
+            parts = list(v._xyz.values()) if isinstance(v, osyris.Vector) else [v]
+            same.append([ids.setdefault(id(p._array if hasattr(p, "_array") else p), len(ids)) for p in [v] + parts])
+        return [[[k, describe(g._container[k])] for k in g._container], same, impl.aliased]
 
     # -- model helpers
     @staticmethod
@@ -168,7 +191,7 @@ class Spec:
         arrays = model_arrays(kind, cur if cur is not None else (N0,), ver)
         newshape = np.asarray(arrays[0]).shape
         exp = self._expect_set(model, key, newshape)
-        before = self.canon(impl)
+        before = self.canon(impl)[0]
         val = build_value(kind, arrays)
         try:
             call(key, val)
@@ -184,7 +207,7 @@ class Spec:
                 model[key] = m
             else:
                 model[key] = m
-        elif self.canon(impl) != before:
+        elif self.canon(impl)[0] != before:
             problems.append(("C06:rejected-insert-changed-group", {"key": key, "kind": kind}))
         return got
 
@@ -203,6 +226,7 @@ class Spec:
                 vals[k] = build_value(kind, arrays)
                 model[k] = {"kind": kind, "arrays": arrays, "unit": UNIT[kind], "ver": 1}
             impl.obj = g = osyris.Datagroup(vals)
+            impl.aliased = False
             ret = "ctor"
         elif name == "set":
             ret = self._insert(impl, model, op[1], op[2], problems, lambda k, v: g.__setitem__(k, v))
@@ -215,6 +239,32 @@ class Spec:
                 if r == "reject":
                     break
             ret = rets
+        elif name in ("alias", "alias_component"):
+            src, dst = op[1], op[2]
+            if src not in model or src == dst:
+                ret = "disabled"
+            else:
+                m = model[src]
+                is_vec = m["kind"] in ("V3fit", "V2fit")
+                if name == "alias_component" and not is_vec:
+                    ret = "disabled"
+                else:
+                    obj = g[src].x if name == "alias_component" else g[src]
+                    arrays = [m["arrays"][0]] if name == "alias_component" else list(m["arrays"])
+                    kind = "Afit" if name == "alias_component" else m["kind"]
+                    newshape = np.asarray(arrays[0]).shape
+                    exp = self._expect_set(model, dst, newshape)
+                    try:
+                        g[dst] = obj
+                        got = "accept"
+                    except ValueError:
+                        got = "reject"
+                    if exp != "either" and got != exp:
+                        problems.append((f"C06:alias-insert-{exp}-expected-got-{got}", {"op": op}))
+                    if got == "accept":
+                        model[dst] = {"kind": kind, "arrays": [np.array(a) for a in arrays], "unit": m["unit"], "ver": m["ver"]}
+                        impl.aliased = True
+                    ret = got
         elif name in ("del", "pop"):
             k = op[1]
             try:
@@ -264,6 +314,7 @@ class Spec:
                 if res is g:
                     problems.append(("C06:index-returned-self", {}))
                 impl.obj = res
+                impl.aliased = False
                 model.clear()
                 model.update(mres)
                 ret = "indexed"
@@ -303,11 +354,15 @@ class Spec:
         g = impl.obj
         got = [[k, describe(v)] for k, v in g.items()]
         want = [[k, describe_model(k, m)] for k, m in model.items()]
-        if got != want:
+        if impl.aliased:
+            got_c, want_c = strip_names(got), strip_names(want)
+        else:
+            got_c, want_c = got, want
+        if got_c != want_c:
             sig = "C06:rows-misaligned-or-values-wrong"
             if [x[0] for x in got] != [x[0] for x in want]:
                 sig = "C06:keys-differ"
-            elif _strip_values(got) != _strip_values(want):
+            elif _strip_values(got) != _strip_values(want) and not impl.aliased:
                 sig = "C06:unit-name-dtype-or-shape-not-preserved"
             problems.append((sig + ":" + name, {"got": got, "want": want, "after": op}))
         # invariant: every member has the group's shape
